@@ -329,6 +329,12 @@ where
 
     async fn ready(&self, dependencies: &[ID]) -> Result<bool, Self::Error> {
         self.tx(async |tx| {
+            // A dependency list is a set: the same id can occur more than once (for example when
+            // the list was assembled from several pending entries). The query below counts every
+            // ready id only once, so we need to compare against the number of _distinct_ ids.
+            let dependencies: HashSet<String> =
+                dependencies.iter().map(|dep| dep.to_string()).collect();
+
             let sql = format!(
                 "
                 SELECT
